@@ -153,7 +153,7 @@ def gen_exec_map(r):
 
 def gen_exec_program(r, m, hazard):
     """imports (top level) of / under the OLD paths, then code that reaches OLD only through them"""
-    imps, body = [], []
+    imps, body, pre = [], [], []
     nvar = [0]
 
     def var():
@@ -170,7 +170,12 @@ def gen_exec_program(r, m, hazard):
             return ["%s.%s.%s" % (expr, val, r.choice(X_VALS))]
         if k < .7:
             fn = "fn%d" % (nvar[0] + 1)
-            return ["def %s(a=None):" % fn, "    return %s.%s" % (expr, val), "%s = %s()" % (var(), fn)]
+            d = ["def %s(a=None):" % fn, "    return %s.%s" % (expr, val)]
+            if r.random() < .5:
+                # code IN FRONT OF the first import block that reaches the imported name lazily (called later)
+                pre.extend(d)
+                return ["%s = %s()" % (var(), fn)]
+            return d + ["%s = %s()" % (var(), fn)]
         if k < .85:
             return ["%s = [%s.%s for _i in (1, 2)]" % (var(), expr, val)]
         return ["%s = (%s.%s, 2)" % (var(), expr, val)]
@@ -222,7 +227,9 @@ def gen_exec_program(r, m, hazard):
     r.shuffle(imps)
     # keep at most two import blocks: some imports first, a statement, the rest
     cut = r.randint(0, len(imps))
-    lines = imps[:cut] + (["_sep = 0"] if 0 < cut < len(imps) else []) + imps[cut:] + body
+    if pre and r.random() < .3:
+        pre = ['"""module docstring"""'] + pre
+    lines = pre + imps[:cut] + (["_sep = 0"] if 0 < cut < len(imps) else []) + imps[cut:] + body
     return "\n".join(lines) + "\n"
 
 
